@@ -10,6 +10,7 @@ import (
 	"runtime"
 	"strconv"
 	"strings"
+	"sync/atomic"
 	"time"
 
 	"github.com/safing/portbase/api"
@@ -431,7 +432,74 @@ func (w *world) cleanSessions() {
 	api.VerifCleanSessions()
 }
 
+// cfgStores counts every value stored into the configuration (by the harness and by portbase itself: the API removes
+// expired keys from the option on its own) through the guarded yield points of the config package.
+var cfgStores int64
+
+func init() {
+	config.VerifHook = func(name string) {
+		if name == "config.set.stored" || name == "config.replace.stored" {
+			atomic.AddInt64(&cfgStores, 1)
+		}
+	}
+}
+
+// cleanupMayBePending: a key with an expiry has been configured since the key machinery was last seen at rest. Every
+// import that meets an expired key starts a micro task that writes the list it has read, without the expired entries,
+// back into the option - whenever it gets to run. Two imports of the same list start two of them, and the second one
+// may arrive after the harness has configured the next list. The harness only configures keys when nothing of that
+// kind is pending (see DESIGN.md section 8, round 12).
+var cleanupMayBePending bool
+
+const flagChangeWhileCleanupPending = "keys.change_while_cleanup_pending"
+
+// quiesceKeyMachinery waits until no import of keys, no config change hook and no removal of expired keys is pending
+// or running: no goroutine (started or not yet started) has one of them on its stack.
+func quiesceKeyMachinery() {
+	deadline := time.Now().Add(10 * time.Second)
+	for {
+		d := goroutineDump()
+		if !strings.Contains(d, "api.updateAPIKeys") && !strings.Contains(d, "StartLowPriorityMicroTask") &&
+			!strings.Contains(d, "runEventHook") && !strings.Contains(d, "processEventTrigger") {
+			return
+		}
+		if !time.Now().Before(deadline) {
+			stats.Warn("the API's key import / expired-key removal did not come to rest within 10s; the harness goes on")
+			return
+		}
+		time.Sleep(100 * time.Microsecond)
+	}
+}
+
+// hasExpiry: an entry carries an expiry that is not years away (only such a key can ever be found expired).
+func hasExpiry(entries []string) bool {
+	for _, e := range entries {
+		i := strings.Index(e, "expires=")
+		if i < 0 {
+			continue
+		}
+		v := e[i+len("expires="):]
+		if j := strings.IndexAny(v, "&#"); j >= 0 {
+			v = v[:j]
+		}
+		if ts, err := time.Parse(time.RFC3339, v); err != nil || time.Until(ts) < 24*time.Hour {
+			return true
+		}
+	}
+	return false
+}
+
 func (w *world) applyKeys(t fataler, entries []string, expectCleanup bool) {
+	if cleanupMayBePending {
+		// by-construction exclusion of the open finding C12-cleanup-lost-update (its witness covers the excluded class)
+		quiesceKeyMachinery()
+		cleanupMayBePending = false
+		stats.Class("key_machinery_brought_to_rest_before_a_configuration_change")
+		if stats.Excl(flagChangeWhileCleanupPending) {
+			stats.Excluded(flagChangeWhileCleanupPending)
+		}
+	}
+	cleanupMayBePending = hasExpiry(entries)
 	if err := config.SetConfigOption(api.CfgAPIKeys, entries); err != nil {
 		t.Fatalf("harness: cannot set api keys: %s", err)
 	}
@@ -453,6 +521,7 @@ func (w *world) applyKeys(t fataler, entries []string, expectCleanup bool) {
 			}
 			time.Sleep(50 * time.Microsecond)
 		}
+		quiesceKeyMachinery() // a second removal, started by another import of the same list, is through as well
 	}
 	w.syncKeys()
 }
@@ -484,6 +553,7 @@ func settledKeys() (string, bool) {
 func (w *world) syncKeys() string {
 	deadline := time.Now().Add(10 * time.Second)
 	for {
+		stores := atomic.LoadInt64(&cfgStores)
 		v, settled := settledKeys()
 		if !settled && time.Now().Before(deadline) {
 			time.Sleep(20 * time.Microsecond)
@@ -491,10 +561,10 @@ func (w *world) syncKeys() string {
 		}
 		before := time.Now()
 		w.importKeys()
-		if v2, s2 := settledKeys(); (v2 != v || !s2) && time.Now().Before(deadline) {
+		if v2, s2 := settledKeys(); (v2 != v || !s2 || atomic.LoadInt64(&cfgStores) != stores) && time.Now().Before(deadline) {
 			continue // changed under our feet, again
 		}
-		w.synced = v
+		w.synced, w.syncedStores = v, stores
 		// keys that expire between `before` and now may or may not have been imported;
 		// setKeysExpiring keeps every expiry at least 2 margins away from the import
 		w.keys, w.keyExp = parseKeyEntriesExp(cfgKeys(), before)
@@ -515,7 +585,8 @@ func (w *world) stepStable(t fataler, q reqSpec) (res result, o outcome, ok bool
 		sessBefore := cloneSessions(w.sessions)
 		var msg string
 		res, o, msg = w.stepMode(q, "stable")
-		if v2, settled := settledKeys(); v2 != v1 || !settled {
+		if v2, settled := settledKeys(); v2 != v1 || !settled || atomic.LoadInt64(&cfgStores) != w.syncedStores {
+			// (the count of stores, not only the value: the option can go to another list and back while the request runs)
 			// the configuration changed while the request ran: not a valid observation
 			stats.Class("discarded_config_changed_during_request")
 			w.keys, w.sessions = keysBefore, sessBefore
